@@ -154,4 +154,48 @@ example : structStrict lEnv { i := { ptrSchema := true } } 12 = .ptr 12 := by de
 example : structParse lEnv { looksLikeTypeErr := fun _ => false, rewritten := 99, conversionErr := 98 } { i := { ptrSchema := true } } (structIn 12) = .ptr 12 := by decide
 
 end Struct
+
+/-! ### The families the driver runs (`TypeLocal.famSix` on the `c09 cpx` lines) -/
+section Fam
+variable {P O T V E : Type}
+
+/-- **Slice, the nine `return z.Parse(input, ctx...)` types, File: full.** For every validator, configuration and input
+    (typed or untyped nil, a value, a pointer, anything the extractors refuse) `StrictParse` answers what `Parse` answers. -/
+theorem c09_fam_strict_eq_parse (se : StructErr E) (f : Fam) (hf : f = .slice ∨ f = .viaParse ∨ f = .file)
+    (env : CEnv P O T V E) (c : CCfg P O T V) (x : CIn V) : famStrict se f env c x = famParse se f env c x := by
+  rcases hf with h | h | h <;> subst h
+  · exact c09_slice_strict_eq_parse env c x
+  · rfl
+  · exact c09_file_strict_eq_parse env c x
+
+/-- … hence all six entry points answer with `Parse`'s result on every input (what the driver predicts and the run compares). -/
+theorem c09_fam_six_agree (se : StructErr E) (f : Fam) (hf : f = .slice ∨ f = .viaParse ∨ f = .file)
+    (env : CEnv P O T V E) (c : CCfg P O T V) (x : CIn V) :
+    (famSix se f env c x).s = (famSix se f env c x).p ∧ (famSix se f env c x).a = (famSix se f env c x).p ∧
+    (famSix se f env c x).ms = (famSix se f env c x).mp ∧ (famSix se f env c x).ma = (famSix se f env c x).mp :=
+  let h := c09_six_agree (fun y => (famParse se f env c y).toExcept) (fun y => (famStrict se f env c y).toExcept) x
+    (by simp only [c09_fam_strict_eq_parse se f hf])
+  ⟨h.1, h.2.1, h.2.2.1, h.2.2.2.1⟩
+
+/-- ZodStruct's `StrictParse` is the family's strict entry point on `structIn v`. -/
+theorem structStrict_eq_fam (se : StructErr E) (env : CEnv P O T V E) (c : CCfg P O T V) (v : V) :
+    structStrict env c v = famStrict se .struct env c (structIn v) := rfl
+
+/-- ZodStruct through the family: the six entry points agree on a struct value unless the validator's error is the one
+    the rewrite is keyed on (`c09_struct_partial`). -/
+theorem c09_fam_struct_six_partial (env : CEnv P O T V E) (se : StructErr E) (c : CCfg P O T V) (v : V)
+    (h : ∀ e, Cpx.parse env c (structIn v) = .err e → se.looksLikeTypeErr e = false) :
+    (famSix se .struct env c (structIn v)).s = (famSix se .struct env c (structIn v)).p ∧
+    (famSix se .struct env c (structIn v)).ms = (famSix se .struct env c (structIn v)).mp :=
+  let h' := c09_six_agree (fun y => (famParse se .struct env c y).toExcept) (fun y => (famStrict se .struct env c y).toExcept) (structIn v)
+    (by show (Cpx.strictParse env c (structIn v)).toExcept = (structParse env se c (structIn v)).toExcept
+        rw [← c09_struct_partial env se c v h]; rfl)
+  ⟨h'.1, h'.2.2.1⟩
+
+example : (famSix ({ looksLikeTypeErr := fun _ => false, rewritten := 99, conversionErr := 98 } : StructErr Nat) .viaParse lEnv
+    { i := { pv := some 30, ptrSchema := true } } nilPtrIn).ms = .returned (.ptr 30) := by decide
+example : (famSix ({ looksLikeTypeErr := fun _ => false, rewritten := 99, conversionErr := 98 } : StructErr Nat) .file lEnv
+    { i := { nonOptional := true } } nilPtrIn).mp = .panicked 2 := by decide
+
+end Fam
 end Gozod.C09
